@@ -83,6 +83,16 @@ def unit(case):
             resid["unit_components_rel"] = max(resid["unit_components_rel"], e2)
             if e1 > 1e-12 or e2 > 1e-12:
                 viol.append({"what": "wind_decomposition", "speed": s, "wind_dir": d, "got": (float(u), float(v)), "expected": (eu, ev)})
+        # integer-typed inputs (YAML 'wind_speed: 2', 'wind_dir: 200'): same result as the float-typed call
+        for _ in range(60):
+            si, di = int(rng.integers(1, 15)), int(rng.integers(0, 360))
+            for cast in (int, np.int64, np.int32):
+                u, v = fn(cast(si), cast(di))
+                n += 1
+                eu, ev = -si * math.sin(math.radians(di)), -si * math.cos(math.radians(di))
+                if max(abs(float(u) - eu), abs(float(v) - ev)) > 1e-12 * si:
+                    viol.append({"what": "wind_decomposition", "form": f"integer-typed ({cast.__name__})", "speed": si, "wind_dir": di,
+                                 "got": (float(u), float(v)), "expected": (eu, ev)})
         # arrays
         dd = rng.uniform(0, 360, 50)
         uu, vv = fn(4.0, dd)
@@ -116,6 +126,10 @@ def e2e(case):
     lat = ref_lat + math.degrees(yt / R)
     lon = ref_lon + math.degrees(xt / (R * math.cos(math.radians(ref_lat))))
     ws = float(rng.uniform(1.0, 10.0))
+    int_typed = bool(rng.random() < 0.25)
+    if int_typed:
+        ws = int(rng.integers(2, 10))
+        wd = int(round(wd)) % 360
     L = float(rng.choice([-1, 1]) * 10 ** rng.uniform(1.5, 4))
     forcing = "ustar" if closure == "OAAHOC" else str(rng.choice(["ustar", "z0"]))
     met = {"wind_speed": ws, "wind_dir": wd, "mol": L}
@@ -212,7 +226,7 @@ def e2e(case):
                 viol.append({"what": "footprint_not_upwind_of_tower", "driver": "run_bldfm_timeseries", "step": k, "bearing_deg": bk,
                              "wind_dir": d_k, "error_deg": angdiff(bk, d_k), "directions": sweep[0], "case": desc})
     discr = min(angdiff(wd, 0.0), angdiff(wd, 180.0)) > 2.5
-    b = {f"closure:{closure}": 1, "oblong" if oblong else "square": 1, f"forcing:{forcing}": 1, "stable" if L > 0 else "unstable": 1,
+    b = {"met_values:int" if int_typed else "met_values:float": 1, f"closure:{closure}": 1, "oblong" if oblong else "square": 1, f"forcing:{forcing}": 1, "stable" if L > 0 else "unstable": 1,
          f"halo:{'default' if halo is None else 'explicit'}": 1, f"octant:{int(wd // 45) % 8}": 1, f"prec:{desc['precision']}": 1}
     return {"evals": 1, "nontrivial": bool(discr), "sig": f"{wd:.3f}|{closure}|{nx}x{ny}|{case['idx']}", "buckets": b,
             "resid": {"bearing_error_deg": err}, "counters": {"single_runs": 1, "peak_region_cells": ncell, "timeseries_steps_checked": nsweep}, "violations": viol,
